@@ -6,6 +6,8 @@ require (
 	github.com/anishathalye/porcupine v1.3.0
 	github.com/facebookincubator/tacquito v0.0.0
 	github.com/prometheus/client_golang v1.13.0
+	golang.org/x/crypto v0.0.0-20220817201139-bc19a97f63c8
+	gopkg.in/yaml.v3 v3.0.1
 )
 
 require (
